@@ -340,6 +340,55 @@ func tieDigests(tx *btc.Tx, spent []*btc.TxOut, i int, o *vlib.Oracle, v *verdic
 	}
 }
 
+// tieSigner: the signer of `signatures_verify` is C03's Signature.Sign + the DER assembly of Tx.Sign / Tx.SignWitness
+// (Model/WalletDer.lean, proved equal to Signature.Bytes()). With -rfc6979 the wallet's ECDSA signatures are deterministic,
+// so the model can reproduce them: for an ECDSA input of the written transaction the DER bytes found in the wallet's
+// output must equal `txSignRfc priv digest`, where digest is the real SignatureHash / WitnessSigHash of the script code
+// the wallet signs (itself tied to the model by tieDigests) and priv the wallet's own exported secret of the key whose
+// public key stands next to the signature.
+func tieSigner(c *Case, tx *btc.Tx, spent []*btc.TxOut, i int, pubs [][]byte, o *vlib.Oracle, v *verdict) {
+	kind := scriptKind(spent[i].Pk_script)
+	var blob, pub, digest []byte
+	func() {
+		defer func() { recover() }()
+		switch kind {
+		case "p2pkh":
+			ss := tx.TxIn[i].ScriptSig
+			n := int(ss[0])
+			blob, pub = ss[1:1+n], ss[2+n:]
+			digest = tx.SignatureHash(spent[i].Pk_script, i, 1)
+		case "p2wpkh", "p2sh":
+			blob, pub = tx.SegWit[i][0], tx.SegWit[i][1]
+			digest = tx.WitnessSigHash(scrP2PKH(h160(pub)), spent[i].Value, i, 1)
+		}
+	}()
+	if len(blob) < 9 || len(pub) != 33 || len(digest) != 32 {
+		return
+	}
+	privs, err := walletPrivkeys(&c.W)
+	if err != nil {
+		v.tf("infra-privkeys", "%v", err)
+		return
+	}
+	k := -1
+	for j := range pubs {
+		if bytes.Equal(pubs[j], pub) {
+			k = j
+		}
+	}
+	if k < 0 || k >= len(privs) {
+		return
+	}
+	want := o.MustAsk(fmt.Sprintf("signrfc %s %s", hx(privs[k]), hx(digest)))
+	got := "ok " + hx(blob[:len(blob)-1])
+	if want != got {
+		v.tf("signer-der", "input %d (%s): -rfc6979 signature in the wallet's output %s, model of EcdsaSign(RFC6979) + Tx.Sign's DER assembly %s", i, kind, got, want)
+	} else {
+		v.hit("signer-tie:" + kind)
+		r.TieOK()
+	}
+}
+
 func stdMsgScript(msg string) []byte {
 	b := []byte{0x6a}
 	n := len(msg)
@@ -352,6 +401,18 @@ func stdMsgScript(msg string) []byte {
 		b = append(b, 0x4d, byte(n), byte(n>>8))
 	}
 	return append(b, msg...)
+}
+
+func msgLenClass(n int) string {
+	switch {
+	case n < 75:
+		return "<75"
+	case n <= 77:
+		return fmt.Sprint(n)
+	case n < 256:
+		return "78..255"
+	}
+	return ">=256"
 }
 
 type verdict struct {
@@ -681,8 +742,11 @@ func runSendCase(c *Case, o *vlib.Oracle, v *verdict) {
 			mo := tx.TxOut[k]
 			if mo.Value != 0 || len(mo.Pk_script) == 0 || mo.Pk_script[0] != 0x6a || !bytes.HasSuffix(mo.Pk_script, []byte(c.Msg)) {
 				v.pf("msg-output", "message output %d / %x does not carry %q", mo.Value, mo.Pk_script, c.Msg)
-			} else if !bytes.Equal(mo.Pk_script, stdMsgScript(c.Msg)) {
-				v.hit("observation: OP_RETURN script is not a well-formed push (WritePutLen `<=` OP_PUSHDATA1, 76-byte message)")
+			} else if !bytes.Equal(mo.Pk_script, stdMsgScript(c.Msg)) || !btc.IsPushOnly(mo.Pk_script[1:]) {
+				// fixed by 0bb0a110 (WritePutLen `<` OP_PUSHDATA1); a 76-byte message used to give 6a 4c <76 bytes>
+				v.pf("msg-output-nonstandard", "message output %x is not OP_RETURN + the canonical push of the %d-byte message (not push-only: the transaction is non-standard)", mo.Pk_script, len(c.Msg))
+			} else {
+				v.hit(fmt.Sprintf("msg-output canonical push (len class %s)", msgLenClass(len(c.Msg))))
 			}
 		}
 	}
@@ -704,6 +768,9 @@ func runSendCase(c *Case, o *vlib.Oracle, v *verdict) {
 				v.hit("verified:" + scriptKind(spent[i].Pk_script))
 			}
 			tieDigests(tx, spent, i, o, v)
+			if c.Rfc {
+				tieSigner(c, tx, spent, i, pubs, o, v)
+			}
 			if c.W.Minsig {
 				if tx.SegWit != nil && len(tx.SegWit[i]) == 2 && len(tx.SegWit[i][0]) > 71 {
 					v.pf("minsig", "minsig set but witness signature of input %d has %d bytes", i, len(tx.SegWit[i][0]))
@@ -1018,7 +1085,8 @@ func main() {
 	}
 	r.Assume = []string{
 		"signature validity is observed on the real output by script.VerifyTxScript (real interpreter); in Lean it is the theorem signatures_verify against the REAL script rules ScriptSpec.verifyScript (the reference semantics C01's script_equiv ties VerifyTxScript to), for every flag set with Core's flag dependencies and every oracle instance whose ecdsaVerify / schnorrVerify are C03's models; the sign=>verify facts are imported from C03 (own_signature_accepted, sign_canonical, schnorr_sign_verifies, generator_order), not assumed",
-		"remaining hypotheses of signatures_verify: hcalls (the signing calls succeed with R != 0 - inherited from C03), no_clash (signature bytes||01 are not the 20-byte key hash: FindAndDelete), nonzero (no key hash / x-only key is all-zero = false as a stack element), hash_same / hash_len, no_cross, haddr, hss",
+		"remaining hypotheses of signatures_verify: hcalls (the ONE signing call the input's type needs succeeds with R != 0 - inherited from C03; CallsOk is split per input type), no_clash (signature bytes||01 are not the 20-byte key hash: FindAndDelete), nonzero (no key hash / x-only key is all-zero = false as a stack element), hash_same / hash_len, no_cross, hwit (no witness data yet on the transaction handed to sign_tx), hms (not the multisig branch), hspent, haddr, hss; all hypotheses are discharged jointly (kernel-checked) for one input of each of the four types in Props/C13.lean, with toy sha / HASH160 / tagged hash / nonce source",
+		"the theorem's signer is C03's Signature.Sign + the DER assembly of Tx.Sign / Tx.SignWitness (wallet_der_is_c03_bytes: = Signature.Bytes()); that btc.EcdsaSign hands Sign's (R,S) through is tied here in -rfc6979 runs only (signer-tie: the wallet's DER bytes = the model's); random-nonce ECDSA and Schnorr signatures are judged by script.VerifyTxScript alone",
 		"digest signed = digest verified is PROVED (digests_read_skeleton_only: C02's models of SignatureHash / WitnessSigHash / TaprootSigHash read no scriptSig and no witness; the hash cache stays coherent), for the oracle whose digest requests are those model functions on the signed transaction (DigestsAreC02) - and observed here: the digests computed from the skeleton alone equal the real functions' results on the signed transaction, for every verified input",
 		"wallet keys are taken from the real wallet's own listing (-l -atype pks); key derivation is C14's subject",
 		"amounts and sums < 2^64 (beyond: StringToSatoshis / spendBtc wrap silently — DESIGN O4, observation only)",
